@@ -28,3 +28,9 @@ Definition acc_check (r : Z) (c : Z * Z * list Z * Z) : bool :=
   let '(b, n, ls, v) := c in Bool.eqb (range_relations_b r b n ls v) (v <? 2^n).
 Fixpoint acc_mismatches (r : Z) (k : nat) (cs : list (Z * Z * list Z * Z)) : list nat :=
   match cs with [] => [] | c :: cs' => if acc_check r c then acc_mismatches r (S k) cs' else k :: acc_mismatches r (S k) cs' end.
+
+(* (limb width, widths, values, the query list the real checker passed to the multiplicity hint) *)
+Definition qry_check (c : Z * list Z * list Z * list Z) : bool :=
+  let '(b, widths, vals, qs) := c in zlist_eqb (rc_queries b widths vals) qs.
+Fixpoint qry_mismatches (k : nat) (cs : list (Z * list Z * list Z * list Z)) : list nat :=
+  match cs with [] => [] | c :: cs' => if qry_check c then qry_mismatches (S k) cs' else k :: qry_mismatches (S k) cs' end.
